@@ -1,7 +1,7 @@
 (* C15 — property theorems only. Each is closed by [exact] of a lemma of Proofs_*.v. *)
 From Coq Require Import List Arith ZArith QArith Qabs Bool Lia Lqa.
 From Gst Require Import lib.QAux lib.LinAlgQ C15.gen.MSS C15.Model C15.ModelOp C15.Spec
-                        C15.Proofs_op C15.Proofs_tile C15.Proofs_proj C15.Proofs_std.
+                        C15.Proofs_op C15.Proofs_tile C15.Proofs_proj C15.Proofs_std C15.Proofs_lift.
 Import ListNotations.
 Local Open Scope Q_scope.
 
@@ -90,10 +90,23 @@ Theorem C15_inside_accepted : forall t sb icas indg0 coor l',
   exists lam m, add_weights t sb icas indg0 coor = Wok (map (atoR sb) (simplex_ranks t icas indg0)) lam lam m /\ Forall2 Qeq l' lam.
 Proof. exact add_weights_accepts. Qed.
 Print Assumptions C15_inside_accepted.
-(* Not proved (kept visible): that the grid nodes of a cell of a C16 grid are the affine image required by
-   C15_cell_covered (linearity of Grid::indicesToCoordinate in the index vector), which would chain the two theorems above
-   into "every sample of an active cell gets a row" without hypothesis; the correspondence exercises it on every run. *)
-Definition C15_inside_gets_row_partial := (C15_cell_covered, C15_inside_accepted).
+(* The grid nodes indg0 + s of a cell are the affine image of the offsets s (Grid::indicesToCoordinate is affine in the
+   index vector, rotated or not): cellT = t0 + A s with A = rotation x mesh sizes.  Hence, for a grid of dimension 1..3:
+   every sample of a cell (local coordinates u in [0,1]^ndim, located in that cell by coordinateToIndices) whose nodes
+   are on the grid and active and whose simplices are not degenerate gets a row.  The row is the one of the first
+   accepted simplex (C15_row_is_simplex, C15_weights_affine describe it). *)
+Theorem C15_inside_gets_row : forall t indg0 u coor,
+  let ndim := t_ndim t in let sb := selbis t in
+  (1 <= ndim <= 3)%nat -> wf_shape ndim (t_grid t) -> length indg0 = ndim -> length u = ndim -> in_unit_cube u ->
+  length coor = ndim -> coords_eq ndim coor (cellT ndim (t_grid t) indg0 u) ->
+  C16.Model.c2i (t_grid t) coor false eps6 = (false, indg0) ->
+  (forall icas, (icas < nper_cell ndim)%nat ->
+     Forall (fun r => (r <? 0)%Z = false) (simplex_ranks t icas indg0) /\
+     Forall (fun r => (r <? 0)%Z = false) (map (atoR sb) (simplex_ranks t icas indg0)) /\
+     bary (simplex_coords t icas indg0) coor <> None) ->
+  p_found (proj_point t sb coor) <> None.
+Proof. exact inside_gets_row. Qed.
+Print Assumptions C15_inside_gets_row.
 
 (* a sample outside the grid, or none of whose candidate simplices is accepted, has no weights *)
 Theorem C15_outside_empty : forall t sb coor,
@@ -200,6 +213,23 @@ Theorem C15_free_eq_assembled : forall n S lam c v i,
 Proof. intros. split; [apply free_eq_assembled|apply training_eq_plain]; assumption. Qed.
 Print Assumptions C15_free_eq_assembled.
 
+(* ALinearOp::addToDest: the assembled form adds Q.v to the destination ... *)
+Theorem C15_addToDest_assembled : forall n S lam c inv outv i,
+  c <> [] -> (i < n)%nat ->
+  vget (add_to_dest_cs n S lam c inv outv) i == vget outv i + vget (add_eval_power n S lam c inv) i.
+Proof. exact add_to_dest_cs_spec. Qed.
+Print Assumptions C15_addToDest_assembled.
+(* ... the matrix-free form does not: PrecisionOp::_addToDest writes Q.v over the destination, so the two forms differ
+   as soon as the destination is not zero (S = 0, Lambda = 1, P = 1, v = 1, destination 1: 1 instead of 2).
+   SPDEOp (matrix-free krigingSPDENew) adds the precision term to a destination that already holds the data term. *)
+Theorem C15_addToDest_free_refuted : exists n S lam c inv outv i,
+  (i < n)%nat /\ c <> [] /\
+  ~ vget (add_to_dest_free n S lam c inv outv) i == vget outv i + vget (add_eval_power n S lam c inv) i.
+Proof.
+  exists 1%nat, [[0]], [1], [1], [1], [1], 0%nat. split; [lia|]. split; [discriminate|]. vm_compute. discriminate.
+Qed.
+Print Assumptions C15_addToDest_free_refuted.
+
 (* S symmetric => Q symmetric *)
 Theorem C15_Q_symmetric : forall n S lam c,
   c <> [] -> fsym n (get S) -> fsym n (get (build_Q n S lam c)).
@@ -243,6 +273,22 @@ Proof.
   - vm_compute. reflexivity.
   - vm_compute. reflexivity.
   - repeat constructor; vm_compute; reflexivity.
+Qed.
+
+Example C15_nonvacuous_inside_gets_row :
+  let x := C16.Model.i2c (t_grid ex_turbo) [0; 0]%Z [1 # 4; 5 # 8] true in
+  p_found (proj_point ex_turbo (selbis ex_turbo) x) <> None.
+Proof.
+  cbv zeta. apply (C15_inside_gets_row ex_turbo [0; 0]%Z [1 # 4; 5 # 8]).
+  - vm_compute. lia.
+  - vm_compute. repeat split; repeat constructor.
+  - reflexivity.
+  - reflexivity.
+  - vm_compute. repeat split; discriminate.
+  - reflexivity.
+  - intros idim Hd. destruct idim as [|[|?]]; [| |vm_compute in Hd; lia]; vm_compute; reflexivity.
+  - vm_compute. reflexivity.
+  - intros icas Hi. destruct icas as [|[|?]]; [| |vm_compute in Hi; lia]; (split; [|split]); vm_compute; repeat constructor; discriminate.
 Qed.
 
 (* a symmetric positive semi-definite shift operator (path graph Laplacian), Lambda = (1, 2, 1/2), P = (1 + S)^2 *)
